@@ -435,6 +435,27 @@ def run(chk: Check) -> int:
             persisted += 1
         report(spec, ops, errs)
 
+    totals = {"cases": 0, "mism": 0, "legal": 0}
+
+    def flush(tag):
+        if not cases:
+            return
+        mism, legal, errors = chk.coq_cases(tag, PREAMBLE, "case", cases, "check", "is_legal",
+                                            shard=min(250, max(8, len(cases) // 16 + 1)))
+        for e in errors:
+            chk.broke("correspondence", "Model/DataSaver.v cases could not be evaluated", e)
+        for c, s in mism[:5]:
+            m = metas[c]
+            chk.broke("correspondence", f"Model/DataSaver.v vs DataSaver: case {m['origin']} step {s}",
+                      {"spec": m["spec"], "ops": m["ops"][:s + 1]})
+        totals["cases"] += len(cases)
+        totals["mism"] += len(mism)
+        totals["legal"] += legal
+        for f in chk.work.glob(tag + "_*.v"):
+            f.unlink()
+        cases.clear()
+        metas.clear()
+
     corpus = sorted((chk.work.parents[1] / "corpus" / "C18").glob("*.json"))
     for j, f in enumerate(corpus):
         d = json.loads(f.read_text())
@@ -447,19 +468,30 @@ def run(chk: Check) -> int:
         ml = maxlen if kind not in ("lnd", "int") else min(maxlen, 20)
         res = drive(spec, gen_history(rng, kind, ml), rng)
         add(spec, res, f"seed{chk.seed}/{k}", k)
-    mism, legal, errors = chk.coq_cases("cases", PREAMBLE, "case", cases, "check", "is_legal",
-                                        shard=max(8, len(cases) // 16 + 1))
-    for e in errors:
-        chk.broke("correspondence", "Model/DataSaver.v cases could not be evaluated", e)
-    for c, s in mism[:5]:
-        m = metas[c]
-        chk.broke("correspondence", f"Model/DataSaver.v vs DataSaver: case {m['origin']} step {s}",
-                  {"spec": m["spec"], "ops": m["ops"][:s + 1]})
+        if len(cases) >= 1500:
+            flush(f"cases{k}")
+    flush("cases")
+    exhaustive = 0
+    if not chk.quick:
+        # every op word of length <= 4 over an 8-letter alphabet after a warm-up, Learner1D and AverageLearner, each picker
+        import itertools
+        alphabet = [("ask", 1, True), ("ask", 2, False), ("tell", "outstanding", False), ("tell", "outstanding", True),
+                    ("tell", "again", True), ("tell_pending",), ("loss", False), ("remove_unfinished",)]
+        warm = [("ask", 3, True), ("tell", "outstanding", False)]
+        for kind in ("l1d", "avg"):
+            for pname in PICKERS:
+                for L in range(1, 5):
+                    for word in itertools.product(alphabet, repeat=L):
+                        spec = {"kind": kind, "picker": pname, "npseed": 1, "koff": 1, "size": 40}
+                        res = drive(spec, warm + list(word), random.Random(exhaustive))
+                        add(spec, res, f"exhaustive/{kind}/{pname}/{exhaustive}", exhaustive)
+                        exhaustive += 1
+                flush(f"exh_{kind}_{pname}")
     chk.extra.update({"op_histogram": hist_ops, "child_picker_histogram": kinds, "length_histogram": sizes,
                       "histories_stopped": stops, "persistence_round_trips": persisted,
-                      "legal_histories_per_coq": legal, "cases_compared_in_coq": len(cases),
-                      "mismatches": len(mism), "exhaustive": False})
-    chk.log(f"correspondence: {len(cases)} cases, {len(mism)} mismatches, {legal} legal; oracle signatures {sorted(seen)}")
+                      "legal_histories_per_coq": totals["legal"], "cases_compared_in_coq": totals["cases"],
+                      "mismatches": totals["mism"], "exhaustive_small_scope_cases": exhaustive, "exhaustive": False})
+    chk.log(f"correspondence: {totals['cases']} cases, {totals['mism']} mismatches, {totals['legal']} legal; oracle signatures {sorted(seen)}")
     return chk.finish(
         rule="histories generated by driving the real DataSaver over Learner1D / LearnerND / SequenceLearner / AverageLearner / "
              "IntegratorLearner with three pickers (operator.itemgetter, a lambda on dict results, identity): asks (committing and not), "
